@@ -22,7 +22,7 @@ type Sequence
   monitor Mutex guards next, reserved, global:mark, global:hw, global:absent
   invariant 0 <= hw && hw <= mark && (absent ==> mark == 0)
   invariant self.reserved <= mark && self.interval > 0
-  invariant self.next < self.reserved ==> hw <= self.next
+  invariant self.next < self.reserved ==> hw == self.next
 
 -- the store, seen through the sequence's key
 func KVStore.Get(recv, key) (value, err)
@@ -64,5 +64,25 @@ func Sequence.Release
   requires seq != nil && seq.store != nil && unlocked(seq.Mutex)
   modifies seq.next, seq.reserved, ghost(mark), ghost(hw), ghost(absent)
   ensures unlocked(seq.Mutex)
-  ensures r0 == nil && old(seq.next) < old(seq.reserved) ==> true
+
+-- Sequential variants (opt sequential: no other goroutine, so entry values are the values at the
+-- lock): the waste clauses of the property, which compare the store before and after one call.
+func Sequence.Next#sequential
+  opt sequential
+  requires seq != nil && seq.store != nil && unlocked(seq.Mutex)
+  modifies seq.next, seq.reserved, ghost(mark), ghost(hw), ghost(absent)
+  ghost at return: hw = (r1 == nil ? r0 + 1 : hw)
+  ensures r1 == nil ==> r0 >= old(hw) && hw == r0 + 1                     -- never reused
+  ensures r1 != nil ==> hw == old(hw)
+  ensures mark == old(mark) || (mark == old(mark) + seq.interval && old(seq.next) >= old(seq.reserved))
+                                                                         -- a lease reserves exactly one interval, only when the old one is used up
+
+func Sequence.Release#sequential
+  opt sequential
+  requires seq != nil && seq.store != nil && unlocked(seq.Mutex)
+  modifies seq.next, seq.reserved, ghost(mark), ghost(hw), ghost(absent)
+  ensures hw == old(hw)
+  ensures r0 == nil && old(seq.next) <  old(seq.reserved) ==> mark == hw && seq.next >= seq.reserved   -- a clean Release wastes nothing and ends the lease
+  ensures r0 == nil && old(seq.next) >= old(seq.reserved) ==> mark == old(mark)
+  ensures r0 != nil ==> mark == old(mark)
 @*/
